@@ -41,8 +41,9 @@ pub fn build_family(seed_bytes: &[u8], n: usize) -> Result<(Vec<TypeIR>, PathBuf
     fs::create_dir_all(dir.join("src")).map_err(|e| e.to_string())?;
     let name = format!("c17fam{:016x}", tag);
     let cargo = format!(
-        "[package]\nname = \"{}\"\nversion = \"0.1.0\"\nedition = \"2021\"\n\n[workspace]\n\n[dependencies]\nbpaf = {{ path = \"/repo\", features = [\"derive\"] }}\n\n[profile.release]\nopt-level = 1\ndebug-assertions = true\n",
-        name
+        "[package]\nname = \"{}\"\nversion = \"0.1.0\"\nedition = \"2021\"\n\n[workspace]\n\n[dependencies]\nbpaf = {{ path = \"{}\", features = [\"derive\"] }}\n\n[profile.release]\nopt-level = 1\ndebug-assertions = true\n",
+        name,
+        crate::engine::bpaf_repo()
     );
     let write_if_changed = |p: &Path, content: &str| -> Result<(), String> {
         if fs::read_to_string(p).ok().as_deref() != Some(content) {
@@ -53,7 +54,7 @@ pub fn build_family(seed_bytes: &[u8], n: usize) -> Result<(Vec<TypeIR>, PathBuf
     write_if_changed(&dir.join("Cargo.toml"), &cargo)?;
     write_if_changed(&dir.join("src").join("main.rs"), &crate_source(&family))?;
     if !dir.join("Cargo.lock").exists() {
-        let _ = fs::copy("/repo/Cargo.lock", dir.join("Cargo.lock"));
+        let _ = fs::copy(format!("{}/Cargo.lock", crate::engine::bpaf_repo()), dir.join("Cargo.lock"));
     }
     let log = dir.join("build.log");
     let st = Command::new("cargo")
